@@ -12,7 +12,7 @@ GRANTS = ['Access-Control-Allow-Origin', 'Access-Control-Allow-Credentials', 'Ac
 
 def bounds(t):
     if t == 'quick': return dict(origin_cap=5, norigins=(0, 1, 2), cfg_origin_cap=4, val_cap=3)
-    return dict(origin_cap=7, norigins=(0, 1, 2, 3), cfg_origin_cap=5, val_cap=4)
+    return dict(origin_cap=9, norigins=(0, 1, 2, 3), cfg_origin_cap=6, val_cap=5)
 
 
 def build(params, B, concrete=None):
@@ -39,6 +39,12 @@ def build(params, B, concrete=None):
     for nm, key in (('meth', ENV_METH), ('hdrs', ENV_HDRS), ('exp', ENV_EXP), ('age', ENV_AGE)):
         env[key] = sym(nm, B['val_cap'], alphabet=printable); sy[nm] = env[key]
     hs = []
+    if params.get('decoy'):
+        # a header that is NOT Origin (name: 0-6 letters, any case, != "origin"), placed before the real one: it must not influence the grants
+        letter = lambda b: z3.Or(z3.And(z3.UGE(b, 65), z3.ULE(b, 90)), z3.And(z3.UGE(b, 97), z3.ULE(b, 122)))
+        sy['dname'] = sym('dname', 6, alphabet=letter); sy['dval'] = sym('dval', B['origin_cap'], alphabet=printable)
+        if concrete is None: cons.append(z3.Not(zb(lower_str(sy['dname']).eq(S('origin')))))
+        hs.append(header(sy['dname'], sy['dval']))
     if params['origin']:
         sy['origin'] = sym('origin', B['origin_cap'], alphabet=printable)
         hs.append(header('Origin' if params.get('origin_name') is None else params['origin_name'], sy['origin']))
@@ -102,7 +108,7 @@ def expected_violation(params, sy, hs):
 
 def witness_of(m, params, sy):
     w = {'params': params}
-    for k in ('origin', 'acrm', 'acrh', 'meth', 'hdrs', 'exp', 'age', 'junk'):
+    for k in ('origin', 'acrm', 'acrh', 'meth', 'hdrs', 'exp', 'age', 'junk', 'dname', 'dval'):
         if k in sy: w[k] = model_bytes(m, sy[k]).decode('latin1')
     w['origins'] = [model_bytes(m, c).decode('latin1') for c in sy['origins']]
     if isinstance(sy['cred'], SymStr): w['cred'] = model_bytes(m, sy['cred']).decode('latin1')
@@ -166,6 +172,7 @@ def run_native(oracle, w):
     for k, e in (('meth', 'RWS_CONFIG_CORS_ALLOW_METHODS'), ('hdrs', 'RWS_CONFIG_CORS_ALLOW_HEADERS'), ('exp', 'RWS_CONFIG_CORS_EXPOSE_HEADERS'), ('age', 'RWS_CONFIG_CORS_MAX_AGE')):
         env[e] = w[k]
     hs = []
+    if p.get('decoy'): hs += [w['dname'].encode('latin1'), w['dval'].encode('latin1')]
     if p['origin']: hs += [b'Origin', w['origin'].encode('latin1')]
     if p['acrm']: hs += [b'Access-Control-Request-Method', w['acrm'].encode('latin1')]
     if p['acrh']: hs += [b'Access-Control-Request-Headers', w['acrh'].encode('latin1')]
@@ -205,7 +212,8 @@ def main():
     prog = chk.load()
     B = bounds(chk.tier); chk.bounds = dict(B, methods=METHODS, switch=['unset', 'true', 'false', 'junk(<=2 bytes, != "true")'],
                                              credentials=['unset', 'true', 'false', 'junk(<=2 bytes)'],
-                                             alphabet='printable ASCII 0x20-0x7e (configured origins: non-empty, no comma)')
+                                             alphabet='printable ASCII 0x20-0x7e (configured origins: non-empty, no comma)',
+                                             decoy='cases with one extra header before / instead of Origin: name 0-6 ASCII letters != "origin" (any case), value printable')
     chk.assumptions = ['strings are ASCII; configured origins are non-empty and comma-free and reach the process as their comma-join (as bootstrap stores them)',
                        'std models used are listed under coverage.std_models_used; eprintln!/println! are no-ops',
                        'environment is read through std::env::var only (the model fails hard on any other variable)']
@@ -218,6 +226,13 @@ def main():
                     for m in methods:
                         for acrm, acrh in (((True, True), (False, False)) if chk.tier == 'quick' else ((True, True), (False, False), (True, False), (False, True))):
                             cases.append(dict(switch=sw, k=k, cred=cred, origin=org, method=m, acrm=acrm, acrh=acrh))
+    # decoy header (name != Origin) before / instead of the Origin header
+    for sw in ('unset', 'true', 'false', 'junk'):
+        for k in ((1, 2) if sw == 'false' else (1,)):
+            for org in (True, False):
+                for m in (('GET', 'OPTIONS') if chk.tier == 'quick' else methods):
+                    for acrm, acrh in ((True, True), (False, False)):
+                        cases.append(dict(switch=sw, k=k, cred='true', origin=org, method=m, acrm=acrm, acrh=acrh, decoy=True))
     for c in cases[::37]: c['sample'] = True
     results = chk.run_cases(case, cases, label='Cors::get_headers symbolic')
     grant_paths = sum(r.get('grant_paths', 0) for r in results)
@@ -234,14 +249,14 @@ def main():
             cfg = [rs(4, 1).replace(',', 'c') for _ in range(rng.randint(0, 3))]
             o = rng.choice(cfg) if cfg and rng.random() < 0.4 else rs(5)
         p = dict(switch=rng.choice(['unset', 'true', 'false', 'false', 'false', 'junk']), k=len(cfg), cred=rng.choice(['unset', 'true', 'false', 'junk']),
-                 origin=rng.random() < 0.85, method=rng.choice(METHODS), acrm=rng.random() < 0.5, acrh=rng.random() < 0.5)
-        w = {'params': p, 'origin': o, 'origins': cfg, 'acrm': rs(3), 'acrh': rs(3), 'meth': rs(3), 'hdrs': rs(3), 'exp': rs(3), 'age': rs(3), 'junk': rng.choice(['x', '', 'TR']),
+                 origin=rng.random() < 0.85, method=rng.choice(METHODS), acrm=rng.random() < 0.5, acrh=rng.random() < 0.5, decoy=rng.random() < 0.3)
+        w = {'params': p, 'origin': o, 'origins': cfg, 'acrm': rs(3), 'acrh': rs(3), 'meth': rs(3), 'hdrs': rs(3), 'exp': rs(3), 'age': rs(3), 'junk': rng.choice(['x', '', 'TR']), 'dname': rng.choice(['O', 'Or', 'Origi', 'x', '', 'ORIGIN', 'Host']) if False else rng.choice(['O', 'Or', 'Origi', 'x', '', 'Host']), 'dval': rs(5),
              'cred': {'unset': None, 'true': 'true', 'false': 'false', 'junk': rng.choice(['1', 'T', ''])}[p['cred']]}
         diffs.append(w)
     ex = H.new_executor(prog)
     for w in diffs:
         p = w['params']
-        conc = {'origin': w['origin'], 'acrm': w['acrm'], 'acrh': w['acrh'], 'meth': w['meth'], 'hdrs': w['hdrs'], 'exp': w['exp'], 'age': w['age'], 'junk': w['junk'], 'credjunk': w['cred'] or ''}
+        conc = {'origin': w['origin'], 'acrm': w['acrm'], 'acrh': w['acrh'], 'meth': w['meth'], 'hdrs': w['hdrs'], 'exp': w['exp'], 'age': w['age'], 'junk': w['junk'], 'credjunk': w['cred'] or '', 'dname': w['dname'], 'dval': w['dval']}
         for i, c in enumerate(w['origins']): conc['cfg%d' % i] = c
         st, req, sy = build(p, B, concrete=conc)
         outs = ex.run_fn('Cors::get_headers', [req], st)
